@@ -160,10 +160,64 @@ func unescapeSMTString(v string) string {
 	})
 }
 
+// repoOverlay maps /repo paths to replacement files taken from the tree named by GOSX_REPO_OVERLAY (a directory
+// mirroring /repo's layout that holds only the files to replace). It lets a candidate change to the repository be
+// checked without touching /repo (used by seeded/run_seed.sh).
+func repoOverlay() map[string]string {
+	out := map[string]string{}
+	root := os.Getenv("GOSX_REPO_OVERLAY")
+	if root == "" {
+		return out
+	}
+	filepath.Walk(root, func(path string, info os.FileInfo, err error) error {
+		if err != nil || info.IsDir() || !strings.HasSuffix(path, ".go") {
+			return nil
+		}
+		rel, _ := filepath.Rel(root, path)
+		out[filepath.Join("/repo", rel)] = path
+		return nil
+	})
+	return out
+}
+
 // clockOverlay rewrites time.Now() in the repo's non-test sources so that native replay runs on the model's clock.
 func clockOverlay(tmp string, ov map[string]string) error {
 	roots := []string{"/repo/go/appencryption", "/repo/go/securememory", "/repo/server/go/pkg"}
 	n := 0
+	re := regexp.MustCompile(`(?m)^package\s+\w+\s*$`)
+	rewrite := func(path string, src []byte) error {
+		if !strings.Contains(string(src), "time.Now()") {
+			return nil
+		}
+		txt := strings.ReplaceAll(string(src), "time.Now()", "vxclock.Now()")
+		// add the import right after the package clause
+		loc := re.FindStringIndex(txt)
+		if loc == nil {
+			return nil
+		}
+		txt = txt[:loc[1]] + "\n\nimport vxclock \"verifh/vx/vxclock\"\n" + txt[loc[1]:] + "\nvar _ = time.Second\n"
+		n++
+		dst := filepath.Join(tmp, fmt.Sprintf("clk%d.go", n))
+		if err := os.WriteFile(dst, []byte(txt), 0o644); err != nil {
+			return err
+		}
+		ov[path] = dst
+		return nil
+	}
+	// candidate-change files first (GOSX_REPO_OVERLAY): they replace the /repo file of the same path
+	for path, alt := range repoOverlay() {
+		if _, overlaid := ov[path]; overlaid || strings.HasSuffix(path, "_test.go") {
+			continue
+		}
+		src, err := os.ReadFile(alt)
+		if err != nil {
+			return err
+		}
+		ov[path] = alt
+		if err := rewrite(path, src); err != nil {
+			return err
+		}
+	}
 	for _, root := range roots {
 		err := filepath.Walk(root, func(path string, info os.FileInfo, err error) error {
 			if err != nil {
@@ -183,24 +237,10 @@ func clockOverlay(tmp string, ov map[string]string) error {
 				return nil
 			}
 			src, err := os.ReadFile(path)
-			if err != nil || !strings.Contains(string(src), "time.Now()") {
+			if err != nil {
 				return nil
 			}
-			txt := strings.ReplaceAll(string(src), "time.Now()", "vxclock.Now()")
-			// add the import right after the package clause
-			re := regexp.MustCompile(`(?m)^package\s+\w+\s*$`)
-			loc := re.FindStringIndex(txt)
-			if loc == nil {
-				return nil
-			}
-			txt = txt[:loc[1]] + "\n\nimport vxclock \"verifh/vx/vxclock\"\n" + txt[loc[1]:] + "\nvar _ = time.Second\n"
-			n++
-			dst := filepath.Join(tmp, fmt.Sprintf("clk%d.go", n))
-			if err := os.WriteFile(dst, []byte(txt), 0o644); err != nil {
-				return err
-			}
-			ov[path] = dst
-			return nil
+			return rewrite(path, src)
 		})
 		if err != nil {
 			return err
